@@ -621,3 +621,75 @@ Example C04_source_downstream_example :
   | _, _ => False
   end.
 Proof. vm_compute. repeat split; reflexivity. Qed.
+
+(* ==== the third shipped BayesianModel subclass: ComboGridFactorModel (models/grid_combo.py; variational, selectable with --model).
+   `src_grid_add_observations` is its whole method _add_observations re-translated on every run (configuration C04_GRID_ADD ->
+   Generated/SrcTrainGrid.v); the six numpy arrays of the object are six lists, [grid_cols st] the object holding the training
+   entries st; grid_helper.unpack_data(use_mask=True) is a primitive: row-wise over the rows with mask, by ANY per-row function u
+   of (sample id, treatment ids) - Model/Train.v, last part. ==== *)
+From Batchie Require Import Generated.SrcTrainGrid Proofs.C04SourceGrid.
+
+Theorem C04_model_is_source_grid_add_observations : forall (C : Type) (u : unpack_fn C) (st : list (gtrip C)) (rows : list trow),
+  (let '(s, c, e, d, f, y) := grid_cols st in src_grid_add_observations C u s c e d f y rows)
+  = dor t <- grid_inner u st rows; Ok (grid_cols t).
+Proof. exact src_grid_add_observations_is_model. Qed.
+Print Assumptions C04_model_is_source_grid_add_observations.
+
+Theorem C04_model_is_source_grid_add : forall (C : Type) (u : unpack_fn C) (st : list (gtrip C)) (rows : list trow),
+  src_add_observations _
+    (fun (self : list Z * list C * list C * list Z * list Z * list oval) d =>
+       let '(s, c, e, dd, f, y) := self in src_grid_add_observations C u s c e dd f y d)
+    (grid_cols st) rows
+  = dor t <- grid_add u st rows; Ok (grid_cols t).
+Proof. exact src_grid_add_is_model. Qed.
+Print Assumptions C04_model_is_source_grid_add.
+
+Theorem C04_train_noninterference_grid : forall (C : Type) (u : unpack_fn C) s1 s2,
+  same_except_masked s1 s2 -> train_grid u s1 = train_grid u s2.
+Proof. exact train_grid_noninterference. Qed.
+Print Assumptions C04_train_noninterference_grid.
+
+(* one entry per observed row, in order: the row's unpacked ids / concentrations and clip(y, 0, 1); accepted whenever no observed
+   value is negative or NaN *)
+Theorem C04_trained_exactly_once_grid : forall (C : Type) (u : unpack_fn C) rows,
+  (forall t, train_grid u rows = Ok t ->
+     t = map (fun r => {| gt_u := u (t_sample r) (t_treats r); gt_y := oclip_at 0%Qc 1%Qc (t_obs r) |}) (filter t_mask rows)) /\
+  ((forall r, In r rows -> t_mask r = true -> o_nonneg (t_obs r) = true) -> exists t, train_grid u rows = Ok t).
+Proof. exact train_grid_exactly_once. Qed.
+Print Assumptions C04_trained_exactly_once_grid.
+
+Theorem C04_refuses_grid : forall (C : Type) (u : unpack_fn C) (st : list (gtrip C)) rows r, In r rows ->
+  (t_mask r = false -> grid_add u st rows = Err 1) /\
+  ((o_negative (t_obs r) = true \/ t_obs r = ONaN) ->
+     (exists t, grid_add u st rows = Err t) /\ (t_mask r = true -> exists t, train_grid u rows = Err t)).
+Proof.
+  exact (fun C u st rows r Hi => conj (grid_refuses_masked C u st rows r Hi) (grid_refuses_negative_nan C u st rows r Hi)).
+Qed.
+Print Assumptions C04_refuses_grid.
+
+Example C04_grid_example :
+  let u : unpack_fn unit := fun s t => (s, nth 0 t 0, nth 1 t 0, tt, tt) in
+  option_map (map (fun t => (gt_u t, match gt_y t with OFin q => Some (this q) | _ => None end)))
+    (match train_grid u w_rows' with Ok t => Some t | Err _ => None end)
+  = Some [((0, 0, -1, tt, tt), Some (1 # 2)%Q); ((0, -1, 1, tt, tt), Some (1 # 2)%Q); ((0, 0, 1, tt, tt), Some (1 # 4)%Q);
+          ((0, -1, -1, tt, tt), Some (1 # 2)%Q)]
+  /\ (let '(s, c, e, d, f, y) := grid_cols (C := unit) [] in src_grid_add_observations unit u s c e d f y w_rows') = Err 2.
+Proof. vm_compute. split; reflexivity. Qed.
+
+(* ==== "the data handed to the model": the observed subset's rows are identical (C04_downstream_frame, train_input); its
+   computed attribute single_treatment_effects is NOT, as coded - the parent's table is built from all rows, masked included
+   (witness: an observed single-agent well 0.5 and a masked replicate holding 0.5 / 1 give the observed row the effect 0.5 / 0.75).
+   No shipped model reads the attribute, so the training arrays and everything downstream are unaffected; computed from the
+   observed rows only it would be blind. ==== *)
+From Batchie Require Import Proofs.C04View.
+Theorem C04_handed_view_single_effects_refuted :
+  exists arity s1 s2, same_except_masked s1 s2 /\
+    subset_observed_single_effects arity s1 = Some [[OFin v_half; OFin 1%Qc]] /\
+    subset_observed_single_effects arity s2 = Some [[OFin (Q2Qc (3 # 4)); OFin 1%Qc]].
+Proof. exact handed_view_single_effects_refuted. Qed.
+Print Assumptions C04_handed_view_single_effects_refuted.
+
+Theorem C04_handed_view_single_effects_repaired : forall arity s1 s2, same_except_masked s1 s2 ->
+  subset_observed_single_effects_repaired arity s1 = subset_observed_single_effects_repaired arity s2.
+Proof. exact handed_view_single_effects_repaired. Qed.
+Print Assumptions C04_handed_view_single_effects_repaired.
